@@ -52,6 +52,20 @@ pub struct Xcfg {
     pub stop_when_done: bool, // chain: stop as soon as a read returns Ok with all-empty data
     pub kill_after: bool,     // kill the child right after the chain instead of giving it time to finish
     pub eintr_permille: u32,  // probability of an injected EINTR on the parent's poll()
+    pub route: Route,
+}
+
+/// Different ways of saying the same exchange.
+#[derive(Clone, Debug, Default)]
+pub struct Route {
+    /// the command / pipeline / configuration is copied (Exec::clone, Pipeline::clone, PopenConfig::try_clone) and the copy is run
+    pub via_clone: bool,
+    /// pipelines: the input is attached to `(first | second)` and a third command is appended afterwards
+    pub late_stage: bool,
+    /// limit_time() is called before limit_size() (instead of after)
+    pub time_first: bool,
+    /// the chain reads through read_string() (Start entry only)
+    pub text_chain: bool,
 }
 
 #[derive(Clone, Debug)]
@@ -192,6 +206,13 @@ pub fn exchange(ctx: &mut Ctx, cfg: &Xcfg) -> Xres {
             if let Some(i) = &cfg.input {
                 pl = pl.stdin(i.clone());
             }
+            if cfg.route.late_stage {
+                // a third pass-through command joins a pipeline that already has its input attached
+                pl = pl | Exec::cmd(&argv[0]).args(&["stage", "2", "1", "0", "0", "0", "0"]).arg(dir.join("stage2.rep"));
+            }
+            if cfg.route.via_clone {
+                pl = pl.clone();
+            }
             arm_io_rules(&mut short_rules);
             if cfg.entry == Entry::PipelineCapture {
                 let m = run::monitored(|| pl.capture());
@@ -217,12 +238,7 @@ pub fn exchange(ctx: &mut Ctx, cfg: &Xcfg) -> Xres {
                 match m0.result {
                     Some(Ok(mut comm)) => {
                         for lim in &chain {
-                            if let Some(s) = lim.size {
-                                comm = comm.limit_size(s);
-                            }
-                            if let Some(t) = lim.time {
-                                comm = comm.limit_time(t);
-                            }
+                            comm = set_limits(comm, lim, cfg.route.time_first);
                             let stop = run_read(&mut res, cfg, lim, |_| {}, &mut || comm.read());
                             if stop {
                                 break;
@@ -243,6 +259,9 @@ pub fn exchange(ctx: &mut Ctx, cfg: &Xcfg) -> Xres {
             }
             e = if cfg.out_piped { e.stdout(Redirection::Pipe) } else { e.stdout(NullFile) };
             e = if cfg.err_merge { e.stderr(Redirection::Merge) } else if cfg.err_piped { e.stderr(Redirection::Pipe) } else { e.stderr(NullFile) };
+            if cfg.route.via_clone {
+                e = e.clone();
+            }
             arm_io_rules(&mut short_rules);
             if let Some((cap, cost)) = cfg.vclock {
                 vclock::enable_pure(cap, 0, cfg.seed, 1000, cost);
@@ -281,12 +300,7 @@ pub fn exchange(ctx: &mut Ctx, cfg: &Xcfg) -> Xres {
                 match m0.result {
                     Some(Ok(mut comm)) => {
                         for lim in &chain {
-                            if let Some(s) = lim.size {
-                                comm = comm.limit_size(s);
-                            }
-                            if let Some(t) = lim.time {
-                                comm = comm.limit_time(t);
-                            }
+                            comm = set_limits(comm, lim, cfg.route.time_first);
                             let stop = run_read(&mut res, cfg, lim, |_| {}, &mut || comm.read());
                             if stop {
                                 break;
@@ -307,6 +321,7 @@ pub fn exchange(ctx: &mut Ctx, cfg: &Xcfg) -> Xres {
                 stderr: if cfg.err_merge { Redirection::Merge } else if cfg.err_piped { Redirection::Pipe } else { Redirection::File(std::fs::OpenOptions::new().write(true).open("/dev/null").unwrap()) },
                 ..Default::default()
             };
+            let config = if cfg.route.via_clone { config.try_clone().expect("try_clone") } else { config };
             let m0 = run::monitored(|| Popen::create(&argv, config));
             match m0.result {
                 Some(Ok(mut p)) => {
@@ -355,13 +370,20 @@ pub fn exchange(ctx: &mut Ctx, cfg: &Xcfg) -> Xres {
                         _ => {
                             let mut comm = p.communicate_start(cfg.input.clone());
                             for lim in &chain {
-                                if let Some(s) = lim.size {
-                                    comm = comm.limit_size(s);
-                                }
-                                if let Some(t) = lim.time {
-                                    comm = comm.limit_time(t);
-                                }
-                                let stop = run_read(&mut res, cfg, lim, |_| {}, &mut || comm.read());
+                                comm = set_limits(comm, lim, cfg.route.time_first);
+                                let stop = if cfg.route.text_chain {
+                                    // strings travel as their bytes and are marked as text afterwards
+                                    let stop = run_read(&mut res, cfg, lim, |_| {}, &mut || comm.read_string().map(|(o, e)| (o.map(String::into_bytes), e.map(String::into_bytes))));
+                                    if let Some(rr) = res.reads.last_mut() {
+                                        if rr.ok {
+                                            rr.out_str = rr.out.take().map(|b| String::from_utf8(b).unwrap_or_default());
+                                            rr.err_str = rr.err.take().map(|b| String::from_utf8(b).unwrap_or_default());
+                                        }
+                                    }
+                                    stop
+                                } else {
+                                    run_read(&mut res, cfg, lim, |_| {}, &mut || comm.read())
+                                };
                                 if stop {
                                     break;
                                 }
@@ -423,6 +445,23 @@ pub fn exchange(ctx: &mut Ctx, cfg: &Xcfg) -> Xres {
     }
     run::end_case();
     res
+}
+
+fn set_limits(mut comm: subprocess::Communicator, lim: &Limit, time_first: bool) -> subprocess::Communicator {
+    if time_first {
+        if let Some(t) = lim.time {
+            comm = comm.limit_time(t);
+        }
+    }
+    if let Some(s) = lim.size {
+        comm = comm.limit_size(s);
+    }
+    if !time_first {
+        if let Some(t) = lim.time {
+            comm = comm.limit_time(t);
+        }
+    }
+    comm
 }
 
 fn mark_at_return(res: &mut Xres) {
